@@ -12,7 +12,7 @@ use std::collections::BTreeMap;
 pub fn def() -> PropDef {
     PropDef {
         id: "C11",
-        rule: "generated: one encoded instance (family x engine x configuration class x size x data), a sufficient received set S (8 loss-pattern families), two independent arrival orders of S, a superset S' of S up to all k+r shards, and the all-originals case accompanied by random recovery shards. oracle (metamorphic): restored(S, order1) == restored(S, order2); restored(S') == restored(S) restricted to the originals missing from S'; no given original is reported; all originals given => empty iterator. Each restored shard also equals the encoded original. non-trivial: the two orders differ and interleave originals with recovery, or |S'| > k; distinct by full case",
+        rule: "generated: one encoded instance (family x engine x configuration class x size x data), a sufficient received set S (8 loss-pattern families), two independent arrival orders of S, a superset S' of S up to all k+r shards, and the all-originals case accompanied by random recovery shards. part corner_supersets: the same on every staircase corner of the envelope and its neighbours (k + r == 65536 exactly), two thirds of the cases with the superset of ALL k + r shards and all originals plus ALL recovery shards. oracle (metamorphic): restored(S, order1) == restored(S, order2); restored(S') == restored(S) restricted to the originals missing from S'; no given original is reported; all originals given => empty iterator. Each restored shard also equals the encoded original. non-trivial: the two orders differ and interleave originals with recovery, or |S'| > k; distinct by full case",
         assumptions: &[],
         parts,
     }
@@ -42,8 +42,31 @@ fn strategy(t: Tier) -> BoxedStrategy<OrderCase> {
         .boxed()
 }
 
+/// the staircase corners of the envelope (k + r == 65536 exactly, and their neighbours inside): sufficient set,
+/// supersets up to ALL k + r shards, all originals plus any / all recovery shards
+fn corner_strategy(_t: Tier) -> BoxedStrategy<OrderCase> {
+    gen::kind_any()
+        .prop_flat_map(move |kind| {
+            let corners = gen::envelope_corners(kind);
+            let full = || prop_oneof![2 => Just(0xFFFFu16), 1 => any::<u16>()];
+            (0..corners.len(), any::<u8>(), gen::recv_spec(), 0u8..5, any::<u64>(), full(), full()).prop_map(move |(ci, eraw, recv, order2, seed2, surplus_raw, companions_raw)| {
+                let fast: Vec<Eng> = [Eng::NoSimd, Eng::Ssse3, Eng::Avx2, Eng::Default].iter().copied().filter(|e| e.available()).collect();
+                let eng = if kind == Kind::Rs { Eng::Default } else { fast[(eraw as usize * fast.len()) >> 8] };
+                OrderCase { kind, eng, cfg: Cfg { k: corners[ci].0, r: corners[ci].1, b: 2 }, data: DataSpec { mode: 0, seed: seed2 }, recv, order2, seed2, surplus_raw, companions_raw }
+            })
+        })
+        .boxed()
+}
+
 fn parts() -> Vec<Box<dyn PartDyn>> {
-    vec![Box::new(GenPart { name: "order_surplus", quick: 25_000, thorough: 400_000, shrink_iters: 600, strat: strategy, check })]
+    vec![
+        Box::new(GenPart { name: "order_surplus", quick: 25_000, thorough: 400_000, shrink_iters: 600, strat: strategy, check }),
+        Box::new(GenPart { name: "corner_supersets", quick: 96, thorough: 3_000, shrink_iters: 12, strat: corner_strategy, check: check_corner }),
+    ]
+}
+
+fn check_corner(c: &OrderCase, st: &mut Stats) -> CheckResult {
+    check_part(c, st, "corner_supersets")
 }
 
 fn interleaved(v: &[Given]) -> bool {
@@ -59,6 +82,10 @@ fn interleaved(v: &[Given]) -> bool {
 }
 
 fn check(c: &OrderCase, st: &mut Stats) -> CheckResult {
+    check_part(c, st, "order_surplus")
+}
+
+fn check_part(c: &OrderCase, st: &mut Stats, part: &str) -> CheckResult {
     let Cfg { k, r, b } = c.cfg;
     let data = c.data.expand(k, b);
     let rec = encode_all(c.kind, c.eng, k, r, b, &data).map_err(|e| format!("encode failed: {e:?}"))?;
@@ -136,8 +163,9 @@ fn check(c: &OrderCase, st: &mut Stats) -> CheckResult {
     st.classf("surplus", if extra == 0 { "0" } else if sup.len() == k + r { "all" } else { "some" });
     let nt = (s1 != s2 && (interleaved(&s1) || interleaved(&s2))) || sup.len() > k;
     st.classf("interleaved", interleaved(&s1) || interleaved(&s2));
+    st.classf("all_k_plus_r_shards_on_exact_corner", k + r == 65536 && (sup.len() == k + r || all.len() == k + r));
     if nt {
-        st.nontrivial_case("order_surplus", c);
+        st.nontrivial_case(part, c);
     }
     Ok(())
 }
